@@ -73,7 +73,10 @@ class C18(common.Spec):
                 if circuit.error is not None:
                     break
                 try:
-                    if etype == 'ev':
+                    if etype == 'ev' and tag % 5 == 4:
+                        # delivered directly, without a 'source' item
+                        rblocks[0].event('ev', tag=tag, extra='x%d' % tag)
+                    elif etype == 'ev':
                         if tag % 3 == 0:
                             # an event that already carries an (unrelated) orig_source item
                             ev.send(src, tag=tag, extra='x%d' % tag, orig_source='stale')
